@@ -211,11 +211,12 @@ ClockLeaf(b) ==
     /\ LET r == SeqClock(L(b).kind, L(b).p, st[b], InVals(b, val)) IN
        /\ st' = [st EXCEPT ![b] = r.st]
        /\ nxt' = [w \in Wires |->
-                    IF \E k \in 1..Len(r.prep) : L(b).outs[k] = w
-                    THEN LET k == CHOOSE k \in 1..Len(r.prep) : L(b).outs[k] = w
+                    IF \E k \in 1..Len(r.prep) : k \notin r.skip /\ L(b).outs[k] = w
+                    THEN LET k == CHOOSE k \in 1..Len(r.prep) : k \notin r.skip /\ L(b).outs[k] = w
                          IN  Put(r.prep[k], net.width[w])
                     ELSE nxt[w]]
-       /\ prepared' = prepared \o [k \in 1..Len(r.prep) |-> L(b).outs[k]]
+       /\ prepared' = prepared \o SelectSeq([k \in 1..Len(r.prep) |-> IF k \in r.skip THEN 0 ELSE L(b).outs[k]],
+                                             LAMBDA x : x # 0)
     /\ pendL' = pendL \ {b}
     /\ UNCHANGED <<net, val, order, pc, passes, pendD, cycles, budget, pre, skipped, taint, dirty>>
 
@@ -261,16 +262,18 @@ EdgeStFrom(acc, v, s, act, b) ==
 \* leaf states after the edge: every clockable of an active domain stepped on the pre-edge values
 EdgeRefSt(v, s) == EdgeStFrom(s, v, s, ActiveDoms(v), 1)
 
-RECURSIVE PrepOuts(_, _, _, _)
-PrepOuts(v, b, prep, k) ==
+RECURSIVE PrepOuts(_, _, _, _, _)
+PrepOuts(v, b, prep, skip, k) ==
     IF k > Len(prep) THEN v
-    ELSE PrepOuts([v EXCEPT ![L(b).outs[k]] = Put(prep[k], net.width[L(b).outs[k]])], b, prep, k + 1)
+    ELSE PrepOuts(IF k \in skip THEN v ELSE [v EXCEPT ![L(b).outs[k]] = Put(prep[k], net.width[L(b).outs[k]])],
+                  b, prep, skip, k + 1)
 
 RECURSIVE EdgePrepFrom(_, _, _, _, _)
 EdgePrepFrom(acc, v, s, act, b) ==
     IF b > Len(net.leaves) THEN acc
     ELSE EdgePrepFrom(IF IsSeq(b) /\ L(b).dom \in act
-                      THEN PrepOuts(acc, b, SeqClock(L(b).kind, L(b).p, s[b], InVals(b, v)).prep, 1)
+                      THEN LET r == SeqClock(L(b).kind, L(b).p, s[b], InVals(b, v))
+                           IN  PrepOuts(acc, b, r.prep, r.skip, 1)
                       ELSE acc, v, s, act, b + 1)
 
 \* wire values right after Wire.settleAll(): every prepared value applied to the pre-edge values
